@@ -177,6 +177,7 @@ def check(chk: Check) -> None:
     _membership(chk, R5)
     _fresh_literals(chk)
     _one_slot(chk)
+    _none_is_a_value(chk, R3, acc)
 
     # --------------------------------------------------------------------- R3
     sites = lookup_sites(chk)
@@ -232,6 +233,33 @@ def _fresh_literals(chk: Check) -> None:
     list_literal_builder(chk, R6, functab.table(F))
 
 
+def _none_is_a_value(chk: Check, R3: str, acc) -> None:
+    """None is a value a dict can hold (`d["x"] = None`).  A keyed accessor that decides "absent" by comparing what the container
+    returned with None - get(key) is None -> default - answers differently from d[k], values() and items() for such an entry."""
+    F = chk.facts
+    for name, (q, ci, ki) in sorted(acc.items()):
+        fi = F.func(q)
+        params = [a.arg for a in fi.node.args.args]
+        if len(params) <= max(ci, ki):
+            continue
+        cont = ('param', params[ci])
+        problems = []
+        for p in SymExec(F, fi).run():
+            if not p.normal:
+                continue
+            for c, v, _ in p.assumptions:
+                c = freeze(c)
+                if isinstance(c, tuple) and c[:2] == ('cmp', 'is') and c[3] == ('const', None) and v and isinstance(c[2], tuple):
+                    got = c[2]
+                    looked_up = (got[:1] == ('call',) and isinstance(got[2], tuple) and got[2][:1] == ('attr',) and got[2][1] == cont
+                                 and got[2][2] in ('get', 'pop', '__getitem__')) or (got[:1] == ('sub',) and got[1] == cont)
+                    if looked_up and not om.mentions(p.outcome[1], got):
+                        problems.append('when `%s` is None the function returns %s: an entry whose value is None is treated as absent' % (
+                            show(got), show(p.outcome[1])))
+        if problems:
+            chk.bad(R3, 'FUNCTIONS[%r] -> %s :: None as the absent marker' % (name, q), fi.where, '; '.join(sorted(set(problems))[:2]))
+
+
 def _one_slot(chk: Check) -> None:
     """`c[k] = v`, `c[k] op= v`, `c[k]` and `del c[k]` address one slot of one container.  That is the case when the tree built for
     the statement holds the container expression and the key expression once each: a desugaring that mentions them twice (read
@@ -251,7 +279,8 @@ def _one_slot(chk: Check) -> None:
         syms = A.symbols_in(t.result)
         seen = {}
         for pos, sym in syms:
-            seen[pos] = seen.get(pos, 0) + 1
+            if sym in g.nonterminals:       # (a token value is a constant: mentioning it twice evaluates nothing twice)
+                seen[pos] = seen.get(pos, 0) + 1
         twice = sorted('$%s (%s)' % (pos, rhs[int(pos.split('.')[0]) - 1] if pos.split('.')[0].isdigit() and int(pos.split('.')[0]) <= len(rhs) else '?')
                        for pos, k in seen.items() if k > 1)
         n += 1
